@@ -3,10 +3,9 @@
    Specification vocabulary (Lex/ScanSpec.v): pos_of (positions by counting), sub, blank, tiles (partition),
    positioned, class_ok (lexical rules), indents (indentation rule).
    Only statements + `exact` of lemmas proved in Lex/*Proofs*.v, each followed by Print Assumptions.
-   Status: full = C13_fuel, C13_one_eof, C13_partition, C13_positions_normal, C13_utf8_gate (+ roundtrip,
-   refusal), C13_kinds (+ readings, maximal munch, keyword table), C13_indent_normal; the all-modes statements of positions and
-   indentation are REFUTED in alias mode (line feed inside an alias parameter) and proved there under
-   the hypothesis that excludes exactly that case (_partial). *)
+   Status: every theorem is proved at full strength for both modes (normal and alias). The alias-mode
+   refutations of an earlier revision (a line feed inside an alias parameter) disappeared with the fix
+   a49a8e1 of /repo, which the model mirrors. *)
 From Coq Require Import List NArith Bool.
 Import ListNotations.
 From DDP Require Import Gen.Tokens Lex.Utf8 Lex.Utf8Proofs Lex.ScanModel Lex.ScanSpec Lex.ScanRun
@@ -36,24 +35,16 @@ Print Assumptions C13_partition.
 
 (* 4. positions: Range.Start / Range.End are the line/column of the span's first code point / of the
       code point behind it, counted independently (pos_of; 1-based when scanning starts at 1:1) *)
-Theorem C13_positions_normal :
-  forall l0 c0 i0 src ts, scan_from Normal l0 c0 i0 src = Some ts -> Forall (positioned l0 c0 src) ts.
-Proof. exact (fun l0 c0 i0 src ts H => scan_positions Normal l0 c0 i0 src ts H (or_introl eq_refl)). Qed.
-Print Assumptions C13_positions_normal.
-
-(*    the same statement for alias mode is false: `<`, LF, `>`, x *)
-Theorem C13_positions_refuted :
-  exists src ts, scan_from Alias 1 1 0 src = Some ts /\ ~ Forall (positioned 1 1 src) ts.
-Proof. exact positions_alias_refuted. Qed.
-Print Assumptions C13_positions_refuted.
-
-(*    what holds in every mode: exact positions unless an alias parameter contains a line feed *)
-Theorem C13_positions_partial :
-  forall m l0 c0 i0 src ts, scan_from m l0 c0 i0 src = Some ts ->
-    (m = Normal \/ forall t, In t ts -> ty t = tt_ALIAS_PARAMETER -> ~ In 10 (lit t)) ->
-    Forall (positioned l0 c0 src) ts.
+Theorem C13_positions :
+  forall m l0 c0 i0 src ts, scan_from m l0 c0 i0 src = Some ts -> Forall (positioned l0 c0 src) ts.
 Proof. exact scan_positions. Qed.
-Print Assumptions C13_positions_partial.
+Print Assumptions C13_positions.
+
+(*    in particular scanner.Scan (normal mode, base 1:1): 1-based lines and columns *)
+Theorem C13_positions_normal :
+  forall src ts, scan Normal src = Some ts -> Forall (positioned 1 1 src) ts.
+Proof. exact (fun src ts H => scan_positions Normal 1 1 0 src ts H). Qed.
+Print Assumptions C13_positions_normal.
 
 (* 5. the UTF-8 gate accepts exactly the encodings of code-point lists; it is the only way to be
       refused; behind it the model scans the decoded source, and decoding inverts encoding *)
@@ -126,22 +117,10 @@ Proof. exact keywords_scan. Qed.
 Print Assumptions C13_keywords_scan.
 
 (* 7. indentation rule *)
-Theorem C13_indent_normal :
-  forall l0 c0 i0 src ts, scan_from Normal l0 c0 i0 src = Some ts -> indents src true 0 i0 ts.
-Proof. exact (fun l0 c0 i0 src ts H => scan_indents Normal l0 c0 i0 src ts H (or_introl eq_refl)). Qed.
-Print Assumptions C13_indent_normal.
-
-Theorem C13_indent_refuted :
-  exists src ts, scan_from Alias 1 1 0 src = Some ts /\ ~ indents src true 0 0 ts.
-Proof. exact indents_alias_refuted. Qed.
-Print Assumptions C13_indent_refuted.
-
-Theorem C13_indent_partial :
-  forall m l0 c0 i0 src ts, scan_from m l0 c0 i0 src = Some ts ->
-    (m = Normal \/ forall t, In t ts -> ty t = tt_ALIAS_PARAMETER -> ~ In 10 (lit t)) ->
-    indents src true 0 i0 ts.
+Theorem C13_indent :
+  forall m l0 c0 i0 src ts, scan_from m l0 c0 i0 src = Some ts -> indents src true 0 i0 ts.
 Proof. exact scan_indents. Qed.
-Print Assumptions C13_indent_partial.
+Print Assumptions C13_indent.
 
 (* the depth computed by skipWhitespace over a gap is the declarative rule *)
 Theorem C13_gap_depth_rule :
@@ -152,7 +131,7 @@ Proof. exact gapd_spec. Qed.
 Print Assumptions C13_gap_depth_rule.
 
 (* non-vacuity: a source with keywords, identifier, decimal-comma number, text with escape, nested comment
-   and an indented second line; an alias satisfying the hypothesis of the _partial theorems; gate samples *)
+   and an indented second line; an alias with a base position; the former counterexample; gate samples *)
 Example C13_sample_tokens :
   option_map (map (fun t => (length (lit t), tindent t, (sl t, sc t), (el t, ec t)))) (scan Normal sample) =
   Some [(4%nat, 0, (1,1), (1,5)); (1%nat, 0, (1,6), (1,7)); (6%nat, 0, (1,8), (1,14)); (3%nat, 0, (1,15), (1,18));
@@ -162,9 +141,13 @@ Example C13_sample_tokens :
 Proof. exact sample_tokens. Qed.
 Example C13_sample_alias :
   exists ts, scan_from Alias 3 7 2 sample_alias = Some ts /\
-    (forall t, In t ts -> ty t = tt_ALIAS_PARAMETER -> ~ In 10 (lit t)) /\
-    exists t, In t ts /\ ty t = tt_ALIAS_PARAMETER.
+    exists t, In t ts /\ ty t = tt_ALIAS_PARAMETER /\ (sl t, sc t) = (3, 11) /\ tindent t = 2.
 Proof. exact sample_alias_ok. Qed.
+(* tab, `<`, LF, `>`, x in alias mode: the parameter ends at 2:2, x sits at 2:2-2:3, depth 0 from the parameter on *)
+Example C13_sample_lf_in_alias_parameter :
+  option_map (map (fun t => (length (lit t), tindent t, (sl t, sc t), (el t, ec t)))) (scan_from Alias 1 1 0 lf_alias) =
+  Some [(3%nat, 0, (1,2), (2,2)); (1%nat, 0, (2,2), (2,3)); (0%nat, 0, (2,3), (2,3))].
+Proof. exact lf_alias_tokens. Qed.
 Example C13_sample_utf8 :
   valid [195; 164; 226; 130; 172; 240; 159; 152; 128] = true /\ valid [237; 160; 128] = false /\ valid [192; 128] = false.
 Proof. exact sample_utf8. Qed.
